@@ -7,6 +7,8 @@ package main
 // when the argument is a slice literal.
 
 import (
+	"go/types"
+
 	"golang.org/x/tools/go/ssa"
 )
 
@@ -126,4 +128,88 @@ func allInstrs(fn *ssa.Function) func(func(ssa.Instruction)) {
 			}
 		}
 	}
+}
+
+// putInst: one constant-key map insertion reachable from a function: in the
+// function itself, in a helper that receives the map, or one iteration of a
+// constant-bound loop over a local literal (evaluated with the index fixed).
+type putInst struct {
+	key   int64
+	val   ssa.Value
+	eng   *termEngine
+	fn    *ssa.Function
+	instr *ssa.MapUpdate
+	// ctx: facts of the calling function that hold at the call of the helper
+	// and speak only of the shared receiver
+	ctx factSet
+}
+
+func (P *Prog) putInstances(fn *ssa.Function, ctx factSet, depth int) []putInst {
+	var out []putInst
+	loops := findLoops(fn)
+	strip := func(t *Term) *Term {
+		if t.Op == "iface" && len(t.Args) == 1 {
+			return t.Args[0]
+		}
+		return t
+	}
+	for _, b := range fn.Blocks {
+		for _, in := range b.Instrs {
+			switch in := in.(type) {
+			case *ssa.MapUpdate:
+				var L *loopInfo
+				for _, l := range loops {
+					if l.constBound >= 1 && l.constBound <= 16 && l.idx != nil && (l.kind == "counted" || l.kind == "slice-range") && l.blocks[in.Block()] && in.Block() != l.header {
+						L = l
+					}
+				}
+				if L == nil {
+					if n, ok := termConstInt(strip(P.terms.of(in.Key))); ok {
+						out = append(out, putInst{n, in.Value, P.terms, fn, in, ctx})
+					}
+					continue
+				}
+				for j := int64(0); j < L.constBound; j++ {
+					eng := P.terms.withConst(map[ssa.Value]int64{L.idx: j})
+					if n, ok := termConstInt(strip(eng.of(in.Key))); ok {
+						out = append(out, putInst{n, in.Value, eng, fn, in, ctx})
+					}
+				}
+			case ssa.CallInstruction:
+				h := staticCallee(in)
+				if h == nil || !P.inPkg(h) || h.Blocks == nil || h == fn || depth >= 2 {
+					continue
+				}
+				passesMap := false
+				for _, a := range in.Common().Args {
+					if _, isMap := a.Type().Underlying().(*types.Map); isMap {
+						passesMap = true
+					}
+				}
+				if !passesMap {
+					continue
+				}
+				// facts about the shared receiver carry over
+				hctx := factSet{}
+				if h.Signature.Recv() != nil && len(in.Common().Args) > 0 && P.terms.of(in.Common().Args[0]).String() == "$0" {
+					for _, f := range P.factsBefore(in) {
+						onlyRecv := true
+						f.Pred.walk(func(u *Term) {
+							if (u.Op == "param" && u.S != "0") || u.Op == "alloc" {
+								onlyRecv = false
+							}
+						})
+						if onlyRecv {
+							hctx.add(f)
+						}
+					}
+				}
+				for _, f := range ctx {
+					hctx.add(f)
+				}
+				out = append(out, P.putInstances(h, hctx, depth+1)...)
+			}
+		}
+	}
+	return out
 }
